@@ -10,7 +10,7 @@
    DISPATCH_TIME_NOW; C08_return_value_tells: a non-zero return happens only from there, after the undo CAS); the
    absolute deadline handed to sem_timedwait is C12_since_epoch (Properties_C12.v); the harness checks the real clock. *)
 From Coq Require Import ZArith Bool List.
-From Verif Require Import Word Conc Gen_consts Gen_fields Gen_sema Sema Sema_proofs.
+From Verif Require Import Word Conc Replay Gen_consts Gen_fields Gen_sema Sema SemaR Sema_proofs SemaR_proofs.
 Import ListNotations.
 Local Open Scope Z_scope.
 
@@ -108,6 +108,18 @@ Theorem C08_conformance_automaton_sound : forall p e p', tstep_vis p e = Some p'
   (p = PWLoad /\ exists v, tstep PWLoad (plain_load v) = Some (PWUndo (s64 v)) /\ tstep (PWUndo (s64 v)) e = Some p').
 Proof. exact tstep_vis_sound. Qed.
 Print Assumptions C08_conformance_automaton_sound.
+
+(* whole-round replay (lib/props/c08.py): the scheduler of SemaR.replay only takes steps of the model, so the state it ends
+   in is reachable (every theorem above applies to it); the boolean invariant it evaluates there is true on every reachable
+   state *)
+Theorem C08_replay_reach : forall v w depths chains ord s done rest,
+  sched gstep sema_hidden sema_accepts sema_valid (S (length ord)) w depths chains (init_state v) ord 0 = (s, done, rest) ->
+  reach v s.
+Proof. exact replay_reach. Qed.
+Print Assumptions C08_replay_reach.
+Theorem C08_replay_invariant : forall v tids s, valid_init v -> reach v s -> inv_b v tids s = true.
+Proof. exact inv_b_reach. Qed.
+Print Assumptions C08_replay_invariant.
 
 (* non-vacuity: semaphore created with 0.  Thread 1 waits with a timeout and goes to sleep; thread 2 signals and is
    preempted between its increment and its sem_post; thread 1 times out, finds the value no longer negative, falls
